@@ -62,13 +62,13 @@ CLAIMED = {
             'paths with the failure link computed as make_automaton computes it (from the parent link), proved equal to the '
             'longest proper suffix; scan_exact is soundness and completeness at once.',
             'Names without any word and include_space=True are outside; stored values are truthy.', 'DESIGN.md section 4 C16'),
-    'C17': ('Coq proof (filter_overlapping output is in text order, pairwise disjoint and drawn from the input, for any input; '
-            'every token of Trie.tokenize is the slice of the text at its positions) - partial: coverage and selection rules by '
-            'exhaustive interval configurations and the oracle',
-            'Theorems over the zipper transcription of the nested index loops with deletion; the coverage clause and the '
-            'leftmost-longest / isolated / pair rules are decided by the oracle on all interval multisets up to a bound and on '
-            'generated overlap chains, and by the correspondence.',
-            'Partial proof, see Props/C17.v header.', 'DESIGN.md section 4 C17'),
+    'C17': ('Coq proof, full statement: tokens of Trie.tokenize in text order, pairwise disjoint, on piece boundaries, exact slices, '
+            'every non-blank piece of the text in exactly one token, every kept match emitted; selection rules of '
+            'filter_overlapping (general survival lemma; leftmost longest, isolated, pair rule; uncovered words reappear '
+            'unmatched) + exhaustive interval configurations, overlap chains and the coverage oracle on the implementation',
+            'Theorems for every well-formed trie (build_trie gives one), every text and every list of well-formed tokens, over '
+            'the zipper transcription of the nested index loops with deletion and the piece walk of Trie.tokenize.',
+            'Token predicates and the sort key are regenerated from the source (Tie/Preds.v).', 'DESIGN.md section 4 C17'),
     'C09': ('Coq proof (dedup total, no repeated rendering among siblings at any depth, idempotent, truth-table preserving for '
             'valuations that respect renderings; refutation witness for the rendering-collision finding; relation refused with '
             'TypeError) + reference-implementation oracle and correspondence on trees with duplicates and on combine_expressions',
@@ -114,29 +114,33 @@ CLAIMED = {
             'the AST on every run and Tie/ThreadProg.v re-proves its safety hypothesis; each real execution is replayed on the '
             'model (traces_validated_against_impl).',
             'Partial: bytecode-level switches inside a line, the GIL / free-threaded builds and C-level atomicity are not modelled.', 'DESIGN.md section 4 C20'),
-    'C01': ('Coq proof (partial: literals of the parsed expression = license tokens in order; every reported match spans word pieces '
-            'spelling a stored name; names stored under the words of their key / alias; every token is the slice of the text) + '
-            'word-accounting oracle and token-triple correspondence on generated tables x texts',
-            'Theorems over the boolean parser machine, the Aho-Corasick scan and Trie.tokenize; the coverage link (tokens after '
-            'overlap filtering cover every word exactly once) is decided by the accounting oracle on every generated case.',
+    'C01': ('Coq proof (partial): literals of the parsed expression = license tokens in order; every reported match spans word pieces '
+            'spelling a stored name; names stored under the words of their key / alias; every token is the slice of the text; the '
+            'tokens of the matcher are ordered, disjoint and cover every non-blank piece exactly once + word-accounting oracle and '
+            'token-triple correspondence on generated tables x texts (chains through shared words included)',
+            'Theorems over the boolean parser machine, the Aho-Corasick scan and Trie.tokenize. Not a theorem yet: the statement '
+            'about the words of the keys through unknown-run merging and WITH grouping (the matcher-level coverage is); that link is '
+            'decided by the accounting oracle on every generated case.',
             'Partial proof, see Props/C01.v header.', 'DESIGN.md section 4 C01'),
-    'C04': ('Coq proof (partial: a text whose lower-cased words are a stored name is matched over its whole span with that name\'s '
-            'value; look-ups depend only on lower-cased words; the overlap filter keeps disjoint input tokens in order) + every '
-            'name of generated tables in case / white-space variants and 12 operator contexts',
-            'Theorems over the matcher model for every table and text; survival of the whole-span match through the overlap '
-            'filter and the operator contexts are decided by the oracle (expected tree built from the intended symbols).',
-            'Partial proof, see Props/C04.v header.', 'DESIGN.md section 4 C04'),
+    'C04': ('Coq proof: a text that spells one stored name (any case, any white space, also around parentheses) is tokenized to exactly '
+            'one token over its whole span and parsed to the owning symbol, strict or not (recognise_alone, recognise_name); look-ups '
+            'depend only on lower-cased words + every name of generated tables in case / white-space variants and 12 operator contexts',
+            'Theorems over the matcher and parser model for every table and text. The operator contexts (a name next to operators and '
+            'other names) are decided by the oracle (expected tree built from the intended symbols) and the correspondence.',
+            'Names inside longer expressions are covered by C02 / C17 theorems plus the oracle.', 'DESIGN.md section 4 C04'),
     'C15': ('Kernel computation on the index regenerated from the JSON on every run (both tables build, known keys, deprecated / '
-            'SPDX-less unknown) + Coq proof for any index (builds iff unambiguous; names matched over their span, partial) + '
-            'exhaustive sweep of all bundled names and synthetic indexes against the model',
+            'SPDX-less unknown) + Coq proof for any index (builds iff unambiguous; every name of a built table, alone, parses to its '
+            'entry) + exhaustive sweep of all bundled names and of both Licensings of synthetic indexes against the model',
             'vm_compute facts in Tie/Index.v over gen/Index.v (2310 entries) and general theorems from C04 / C14; recognition of '
             'every name in three letter cases, rendering, validation and flags are swept on the real bundled Licensings.',
             'The shipped index is ASCII; the ASCII part of the oracle is used for the computation.', 'DESIGN.md section 4 C15'),
-    'C18': ('Coq proof (partial: with single-word names the default scan is a per-word look-up with the piece\'s positions and text) '
-            '+ exhaustive token strings under both tokenizers, strict and non-strict, two layouts',
-            'Theorem single_word_scan from the Aho-Corasick exactness theorem; the remaining steps of the agreement are decided '
-            'by comparing both tokenizers of the implementation (and of the model) on all isolated-word token strings up to the bound.',
-            'Partial proof, see Props/C18.v header.', 'DESIGN.md section 4 C18'),
+    'C18': ('Coq proof, full statement on the model: for an alias-free table of single-word non-operator keys and a text without two '
+            'adjacent plain words, Licensing.tokenize gives the same token list or the same error with either tokenizer, hence the same '
+            'parse outcome, strict or not + exhaustive token strings under both tokenizers, two layouts, shared instance',
+            'Theorem parse_agrees via: single-word scan = per-word look-up, all such matches survive the overlap filter, the piece walk '
+            'emits one token per word, isolated unknown words become the same symbol, blanks drop out; oracle facts about the keyword '
+            'characters are premises checked on the interpreter\'s tables.',
+            'Tied to the code by the exhaustive comparison of both tokenizers of the implementation with the model.', 'DESIGN.md section 4 C18'),
 }
 
 NOT_YET = 'check under construction in this session; see DESIGN.md section 4 for the planned theorem'
